@@ -108,10 +108,7 @@ pub fn clip_decisions(
     cell.vertices
         .iter()
         .map(|vertex| {
-            let snap_error = vertex.snap_error
-                + half_space.snap_error(vertex.loc, cell.loc, boundary.grid_spacing);
-            let filter =
-                half_space.clip_with_error_factor(vertex.loc, vertex.error_factor, snap_error);
+            let filter = cell.filter_decision(vertex, half_space, boundary);
             let a = boundary.iloc(cell.loc);
             let right_iloc = |hs: &HalfSpace| {
                 let mut right = boundary.iloc(hs.right_loc(cell.idx, generators));
